@@ -363,6 +363,7 @@ func (c *Ctx) runHand(tag string, cases []handCase) {
 				ok = true
 			}
 		}
+		quiescent(c, tag, h.name, h.src, resp)
 		if !ok {
 			detail := ""
 			if resp.Err != nil {
